@@ -92,6 +92,11 @@ def _act_info(nodes, trans, extra) -> dict:
     return info
 
 
+def fuel_of(machine) -> int:
+    """Events one public step may dequeue before spec and harness both call it divergent."""
+    return min(10 * (int(getattr(machine, "max_iterations", 1000)) + 1), 300)
+
+
 def export_machine(machine: MachineNode, ctl: Ctl, *, events: Optional[List[str]] = None,
                    out_tag=None, act_info: Optional[Dict[str, dict]] = None,
                    extra_event_types: Optional[List[str]] = None) -> Rec:
@@ -226,4 +231,5 @@ def export_machine(machine: MachineNode, ctl: Ctl, *, events: Optional[List[str]
         actInfo=_act_info(nodes, trans, act_info),
         ctx0=ctx0,
         maxIter=int(getattr(machine, "max_iterations", 1000)),
+        fuel=fuel_of(machine),
     )
